@@ -42,4 +42,12 @@ CLAIMED["C05"] = dict(
   text="Generated programs on 1-4 atoms (Ising/XY, local/global, DMM, SLM, several bases); QutipEmulator.get_hamiltonian(t) compared entry-wise (1e-9 rel.) at every selected sample time with an independent numpy.kron construction (M5) of the documented formula from the slot list; Hermiticity 1e-12. Exploration.",
   note="Trusted: numpy.kron, C6_coeffs.json as data, QuTiP QobjEvo evaluation at sample times. Off-diagonal entries where two non-zero pulses act on one (atom,basis) are not compared; sequences with a channel left in EOM mode before the end are skipped (undefined padded tail).",
   technique="property-based testing: generated programs, differential against a reference Hamiltonian builder")
+CLAIMED["C14"] = dict(
+  text="Generated sample arrays x bandwidths 1.5-480 MHz against a time-domain reference Gaussian filter (M7) and the algebraic laws (linearity, integral, positivity, maximum, length, gain at the bandwidth); generated isolated pulses: reference output beyond the accounted fall time; generated programs incl. empty channels: modulated sampling succeeds and array lengths. Exploration.",
+  note="Trusted: analytic kernel sigma_t = sqrt(ln2)/(sqrt2 pi bw). Pointwise agreement with M7 only for sigma_t >= 2 ns; 0.6% tolerance where the tree's circular FFT wraps.",
+  technique="property-based testing: generated inputs against a reference filter + metamorphic/algebraic relations")
+CLAIMED["C16"] = dict(
+  text="Every waveform class x every duration 1..40 (exhaustive, 5 parameter sets) plus generated durations <= 5000 and parameters of either sign against the defining formulas evaluated with numpy; from_max_val (peak bound, local optimality); algebra, equality, indexing/slicing vs numpy; Pulse constructors and ArbitraryPhase through the sampler. Exploration + exhaustive sub-domain.",
+  note="Trusted: numpy.blackman/kaiser, scipy Pchip as the documented windows/interpolant; 1e-8 tolerance on InterpolatedWaveform (rounds to 9 decimals); from_max_val bounded to durations <= 5000/20000 ns.",
+  technique="property-based testing: generated + exhaustively enumerated inputs against defining formulas and algebraic laws")
 NOT_YET = {}
